@@ -10,7 +10,8 @@ import PyramidModel.Gen.C13Skeleton
 {"op":"exec","entry":name,"depth":n,"raises":[[site,k],…],"takes":[[site,k],…],"iters":[[site,k,n],…],"quiet":[site,…]}
    -> {"depth":n,"outcome":"normal"|"returned"|"raised","trace":[[site,depth,flag],…] (oldest first),
        "balanced":b,"opens":b,"closes":b}
-{"op":"sites"} -> {"sites":[name,…],"noRaise":[…],"entries":[name,…]}
+{"op":"sites"} -> {"sites":[name,…],"locs":["file:l:c:el:ec"|"-",…],"noRaise":[…],"entries":[name,…]}
+{"op":"term","entry":name} -> {"term":TERM}
 -/
 open Pyr Lean
 open Pyr.Skel (Stmt Oracle Cfg exec)
@@ -126,6 +127,23 @@ def outcomeName : Skel.Outcome → String
   | .returned => "returned"
   | .raised => "raised"
 
+/-- a skeleton as JSON (for the harness's oracle search): ["call",s] ["seq",a,b] ["ite",s,a,b] ["loop",s,b]
+["scope",b] ["fin",b,f] ["exc",b,h] "skip" "push" "pop" "ret" "raise" "unknown" -/
+partial def stmtJson : Stmt → Json
+  | .skip => Json.str "skip"
+  | .push => Json.str "push"
+  | .pop => Json.str "pop"
+  | .ret => Json.str "ret"
+  | .raise => Json.str "raise"
+  | .unknown => Json.str "unknown"
+  | .call s => toJson [Json.str "call", toJson s]
+  | .seq a b => toJson [Json.str "seq", stmtJson a, stmtJson b]
+  | .ite s a b => toJson [Json.str "ite", toJson s, stmtJson a, stmtJson b]
+  | .loop s b => toJson [Json.str "loop", toJson s, stmtJson b]
+  | .scope b => toJson [Json.str "scope", stmtJson b]
+  | .tryFinally b f => toJson [Json.str "fin", stmtJson b, stmtJson f]
+  | .tryExcept b h => toJson [Json.str "exc", stmtJson b, stmtJson h]
+
 def main : IO Unit := jsonDriver fun j => do
   let op : String ← getAs j "op"
   match op with
@@ -163,9 +181,15 @@ def main : IO Unit := jsonDriver fun j => do
         ("balanced", toJson (Skel.balanced q s)),
         ("opens", toJson (Skel.opens q s)),
         ("closes", toJson (Skel.closes q s))]
+  | "term" =>
+    let entry : String ← getAs j "entry"
+    match Gen.C13.allDefs.find? (fun d => d.1 == entry) with
+    | none => throw s!"no skeleton named {entry}"
+    | some (_, s) => return Json.mkObj [("term", stmtJson s)]
   | "sites" =>
     return Json.mkObj [
       ("sites", toJson Gen.C13.siteNames),
+      ("locs", toJson Gen.C13.siteLocs),
       ("noRaise", toJson Gen.C13.noRaise),
       ("unknowns", toJson Gen.C13.unknowns),
       ("entries", toJson (Gen.C13.allDefs.map (·.1)))]
